@@ -39,3 +39,7 @@ func dumpAtoms(c *Ctx) {
 		}
 	}
 }
+
+func init() {
+	Registry["RING"] = func(c *Ctx) { c.ringMemorySafety() }
+}
